@@ -54,6 +54,14 @@ def generate(ck):
         if ck.tier == "thorough" and i % 10 == 0:
             pmax = 14000.0
         descs.append({"kind": "composition", "comp": comp, "pmax": float(int(pmax)), "picks": [wl.f(v) for v in rng.random(16)], "threads": bool(i % 12 == 5)})
+    # the same tables built in interpreters started with other hash seeds (set and dict-by-hash iteration
+    # order is a property of the interpreter run, not of the input): same numbers in every one
+    comps = []
+    for k in range(3):
+        c = wl.gas_composition(np.random.default_rng(77 + k + 10 * int(ck.seed)))
+        c.update({"N2": [0.07, 0.01, 0.03][k], "H2S": [0.02, 0.05, 0.0][k], "CO2": [0.04, 0.08, 0.06][k], "Gas Specific Gravity": max(c["Gas Specific Gravity"], 0.75)})
+        comps.append(c)
+    descs.append({"kind": "hash-seeds", "comps": comps, "pmax": 600.0, "seeds": [1, 2, 3, 5, 8, 13] if ck.tier == "quick" else list(range(1, 25))})
     for i in range(n):
         m = int(rng.choice([2, 3, 10, 50, 400]))
         if i % 2:
@@ -83,6 +91,34 @@ def run_case(ck, desc):
     from bluebonnet import fluids
     from bluebonnet.fluids.gas import make_nonhydrocarbon_properties, pseudocritical_point_Sutton, pseudopressure_Hussainy
 
+    if desc["kind"] == "hash-seeds":
+        code = (
+            "from bluebonnet.fluids import build_pvt_gas\n"
+            "result = []\n"
+            "for c in payload['comps']:\n"
+            "    c = dict(c); dry = c.pop('dryness')\n"
+            "    t = build_pvt_gas(c, dry, maximum_pressure=payload['pmax'])\n"
+            "    result.append({k: [float(v) for v in t[k]] for k in ('pressure', 'pseudopressure', 'z-factor', 'Density', 'viscosity')})\n"
+        )
+        here = []
+        for c in desc["comps"]:
+            c = dict(c)
+            dry = c.pop("dryness")
+            t = fluids.build_pvt_gas(c, dry, maximum_pressure=desc["pmax"])
+            here.append({k: np.asarray(t[k], dtype=float) for k in ("pressure", "pseudopressure", "z-factor", "Density", "viscosity")})
+        got = instrument.values_under_hash_seeds(code, {"comps": desc["comps"], "pmax": desc["pmax"]}, desc["seeds"])
+        for sd, res in got.items():
+            if isinstance(res, str):
+                ck.inconclusive_because(f"child interpreter with PYTHONHASHSEED={sd}: {res[:200]}")
+                continue
+            ck.count("tables_rebuilt_under_another_hash_seed", len(res))
+            for k, (a, b) in enumerate(zip(res, here)):
+                for col in b:
+                    rel = float(np.max(np.abs(np.asarray(a[col]) - b[col]) / np.maximum(np.abs(b[col]), 1e-300))) if len(a[col]) == len(b[col]) else np.inf
+                    if not ck.margin("table built under another hash seed = table built here", rel, 1e-13):
+                        ck.violation("same-table-in-every-interpreter", {"PYTHONHASHSEED": sd, "composition": {q: desc["comps"][k][q] for q in ("N2", "H2S", "CO2")}, "column": col, "rel": rel}, desc)
+                        break
+        return True, {"children": len(got)}
     if desc["kind"] == "synthetic":
         p, mu, z = (np.array(desc[k]) for k in ("p", "mu", "z"))
         snap = (p.copy(), mu.copy(), z.copy())
